@@ -1,4 +1,4 @@
 From Coq Require Extraction ExtrOcamlBasic.
-From Rpgp Require Import Base.Octets Base.Res Io.Fill Io.Utf8Check Io.CrLfCheck Io.Reassemble Armor.Base64 Armor.LineWriter.
+From Rpgp Require Import Base.Octets Base.Res Msg.ReadEnd Io.Fill Io.Utf8Check Io.CrLfCheck Io.Reassemble Armor.Base64 Armor.LineWriter.
 Extraction Language OCaml.
-Separate Extraction Byte.to_N Byte.of_N Fill.fill Fill.serve Fill.pump Fill.data_of Reassemble.rfb_line CrLfCheck.crlf_run CrLfCheck.ok_from Utf8Check.utf8_run Utf8Check.well_formed LineWriter.lw_run Base64.wrap.
+Separate Extraction Byte.to_N Byte.of_N Fill.fill Fill.serve Fill.pump Fill.data_of Reassemble.rfb_line CrLfCheck.crlf_run CrLfCheck.ok_from Utf8Check.utf8_run Utf8Check.well_formed ReadEnd.consume ReadEnd.msg_read LineWriter.lw_run Base64.wrap.
